@@ -796,3 +796,170 @@ pub fn self_test() -> Vec<String> {
     }
     f
 }
+
+// ---------------------------------------------------------------- independent proof verifier
+/// A proof in neutral form (so that this module does not depend on the crate's types).
+#[derive(Clone, Debug, Default)]
+pub struct RProof {
+    pub fork: u64,
+    /// (block index, value, sibling nodes)
+    pub block: Option<(u64, Vec<u8>, Vec<(u64, u64, [u8; 32])>)>,
+    /// (node index, nodes: the node itself first, then siblings)
+    pub hash: Option<(u64, Vec<(u64, u64, [u8; 32])>)>,
+    pub seek: Option<(u64, Vec<(u64, u64, [u8; 32])>)>,
+    /// (start, length, nodes, additional nodes, signature)
+    pub upgrade: Option<(u64, u64, Vec<(u64, u64, [u8; 32])>, Vec<(u64, u64, [u8; 32])>, Vec<u8>)>,
+}
+
+#[derive(Clone, Debug, Default)]
+pub struct RVerified {
+    pub new_length: Option<u64>,
+    pub new_byte_length: Option<u64>,
+    pub learned: Vec<(u64, u64, [u8; 32])>,
+}
+
+type N3 = (u64, u64, [u8; 32]);
+
+fn fold_path(start: N3, rest: &[N3], extra: Option<N3>, learned: &mut Vec<N3>) -> Result<(N3, bool), String> {
+    let mut cur = start;
+    learned.push(cur);
+    let mut extra = extra;
+    let mut used_extra = false;
+    let mut i = 0;
+    loop {
+        let sib = ft_sibling(cur.0);
+        let n = if extra.map(|e| e.0 == sib).unwrap_or(false) {
+            used_extra = true;
+            extra.take().unwrap()
+        } else if i < rest.len() {
+            let n = rest[i];
+            i += 1;
+            if n.0 != sib {
+                return Err(format!("node {} is not the sibling ({}) of path node {}", n.0, sib, cur.0));
+            }
+            n
+        } else {
+            break;
+        };
+        let (l, r) = if n.0 < cur.0 { (n, cur) } else { (cur, n) };
+        let p = (ft_parent(cur.0), l.1 + r.1, h_parent(l.1, &l.2, r.1, &r.2));
+        learned.push(n);
+        learned.push(p);
+        cur = p;
+    }
+    Ok((cur, used_extra))
+}
+
+/// Verify `proof` as a replica that knows `known` nodes and has `replica_len` blocks, holding
+/// only the public key. Pure reference logic: sibling paths, root stack, signature.
+pub fn ref_verify(p: &RProof, replica_len: u64, replica_fork: u64, known: &BTreeMap<u64, (u64, [u8; 32])>, pk: &[u8; 32]) -> Result<RVerified, String> {
+    if p.fork != replica_fork {
+        return Err("fork differs".into());
+    }
+    let mut out = RVerified::default();
+    // seek section: first node, then siblings
+    let mut seek_root: Option<N3> = None;
+    if let Some((_bytes, nodes)) = &p.seek {
+        if !nodes.is_empty() {
+            let (r, _) = fold_path(nodes[0], &nodes[1..], None, &mut out.learned)?;
+            seek_root = Some(r);
+        }
+    }
+    // block / hash section
+    let mut root: Option<N3> = seek_root;
+    if let Some((idx, value, nodes)) = &p.block {
+        let leaf = (2 * idx, value.len() as u64, h_leaf(value));
+        let (r, _) = fold_path(leaf, nodes, seek_root, &mut out.learned)?;
+        root = Some(r);
+    } else if let Some((idx, nodes)) = &p.hash {
+        if nodes.is_empty() {
+            return Err("hash section without nodes".into());
+        }
+        if nodes[0].0 != *idx {
+            return Err(format!("hash section starts with node {} instead of {}", nodes[0].0, idx));
+        }
+        let (r, _) = fold_path(nodes[0], &nodes[1..], seek_root, &mut out.learned)?;
+        root = Some(r);
+    }
+    let mut root_pending = root;
+    if let Some((start, length, nodes, additional, sig)) = &p.upgrade {
+        if *start != replica_len {
+            return Err(format!("upgrade starts at {start}, replica has {replica_len}"));
+        }
+        if *length == 0 {
+            return Err("zero-length upgrade".into());
+        }
+        // root stack starts with the replica's roots
+        let mut stack: Vec<N3> = vec![];
+        for r in ft_roots(replica_len) {
+            let n = known.get(&r).ok_or_else(|| format!("replica root {r} unknown"))?;
+            stack.push((r, n.0, n.1));
+        }
+        let mut end = 2 * replica_len; // flat index of the first uncovered leaf
+        let push = |stack: &mut Vec<N3>, n: N3, end: &mut u64, learned: &mut Vec<N3>| -> Result<(), String> {
+            let (lo, hi) = ft_span(n.0);
+            if lo != *end {
+                return Err(format!("node {} does not start at the end of the tree (leaf {})", n.0, *end));
+            }
+            *end = hi + 2;
+            stack.push(n);
+            learned.push(n);
+            while stack.len() > 1 {
+                let a = stack[stack.len() - 1];
+                let b = stack[stack.len() - 2];
+                if ft_sibling(a.0) != b.0 || ft_depth(a.0) != ft_depth(b.0) {
+                    break;
+                }
+                let par = (ft_parent(a.0), a.1 + b.1, h_parent(b.1, &b.2, a.1, &a.2));
+                stack.pop();
+                stack.pop();
+                stack.push(par);
+                learned.push(par);
+            }
+            Ok(())
+        };
+        let target = 2 * (start + length);
+        let mut i = 0;
+        while end < target {
+            let use_root = root_pending.map(|r| ft_span(r.0).0 == end).unwrap_or(false);
+            if use_root {
+                let r = root_pending.take().unwrap();
+                push(&mut stack, r, &mut end, &mut out.learned)?;
+            } else if i < nodes.len() {
+                push(&mut stack, nodes[i], &mut end, &mut out.learned)?;
+                i += 1;
+            } else {
+                return Err("upgrade nodes exhausted before reaching the target length".into());
+            }
+        }
+        if end != target {
+            return Err(format!("upgrade nodes overshoot the target: end leaf {end}, target {target}"));
+        }
+        let expect_roots = ft_roots(start + length);
+        let got_roots: Vec<u64> = stack.iter().map(|n| n.0).collect();
+        if got_roots != expect_roots {
+            return Err(format!("root set {got_roots:?} is not the root set of length {} ({expect_roots:?})", start + length));
+        }
+        // upgrade nodes beyond the target are not used by the scheme (duplicates are tolerated
+        // by the crate); additional nodes extend the tree
+        for n in additional {
+            push(&mut stack, *n, &mut end, &mut out.learned)?;
+        }
+        let new_len = end / 2;
+        let rh = h_roots(&stack);
+        if !verify_sig(pk, &signable(&rh, new_len, p.fork), sig) {
+            return Err(format!("signature does not verify for length {new_len}, fork {}", p.fork));
+        }
+        out.new_length = Some(new_len);
+        out.new_byte_length = Some(stack.iter().map(|n| n.1).sum());
+    }
+    if let Some(r) = root_pending {
+        // must be anchored in what the replica already knows
+        match known.get(&r.0) {
+            Some(k) if k.1 == r.2 => {}
+            Some(_) => return Err(format!("computed node {} differs from the replica's node", r.0)),
+            None => return Err(format!("computed node {} is not anchored in a known node", r.0)),
+        }
+    }
+    Ok(out)
+}
